@@ -17,6 +17,7 @@ import (
 	"regexp"
 	"strings"
 
+	"github.com/charmbracelet/log"
 	"github.com/flamego/flamego"
 	"github.com/flamego/flamego/inject"
 )
@@ -327,6 +328,7 @@ func injReplay(raw json.RawMessage, idx int, tr *traceWriter) {
 			}
 			if c.Probe == "svc" {
 				injSvcProbe(tr)
+				injLogProbe(tr)
 			}
 			if c.Probe == "ret" {
 				injRetProbe(tr)
@@ -624,6 +626,40 @@ func injSvcProbe(tr *traceWriter) {
 			args = []injVal{{"RWI", gotW}, {"REQ", gotR}}
 		}
 		tr.emit(map[string]interface{}{"ev": "invoke", "s": 2, "sig": []string{"RWI", "REQ"}, "fast": p != "/refl", "err": false, "errtype": "",
+			"calls": calls, "args": args, "rets": []string{}, "bodyrets": []string{}})
+		tr.emit(map[string]interface{}{"ev": "endreq", "s": 2})
+	}
+}
+
+// injLogProbe: the logger is a service of the APPLICATION scope (the framework registers its default there). An
+// application that registers its own *log.Logger afterwards has replaced it: handlers of later requests asking for a
+// *log.Logger - reflectively or through the built-in LoggerInvoker form - receive the one registered last.
+func injLogProbe(tr *traceWriter) {
+	f := flamego.NewWithLogger(io.Discard)
+	tr.emit(map[string]interface{}{"ev": "reg", "op": "Map", "s": 1, "k": "LOG", "ct": "LOG", "id": 1})
+	custom := log.New(io.Discard)
+	f.Map(custom)
+	tr.emit(map[string]interface{}{"ev": "reg", "op": "Map", "s": 1, "k": "LOG", "ct": "LOG", "id": 7})
+	got := 0
+	see := func(l *log.Logger) {
+		got = 1
+		if l == custom {
+			got = 7
+		}
+	}
+	f.Get("/refl", func(l *log.Logger, _ *http.Request) { see(l) })
+	f.Get("/fast", flamego.LoggerInvoker(func(_ flamego.Context, l *log.Logger) { see(l) }))
+	for _, p := range []string{"/refl", "/fast"} {
+		got = 0
+		req, _ := http.NewRequest("GET", p, nil)
+		f.ServeHTTP(httptest.NewRecorder(), req)
+		calls := 0
+		args := []injVal{}
+		if got != 0 {
+			calls = 1
+			args = []injVal{{"LOG", got}}
+		}
+		tr.emit(map[string]interface{}{"ev": "invoke", "s": 2, "sig": []string{"LOG"}, "fast": p == "/fast", "err": false, "errtype": "",
 			"calls": calls, "args": args, "rets": []string{}, "bodyrets": []string{}})
 		tr.emit(map[string]interface{}{"ev": "endreq", "s": 2})
 	}
